@@ -155,7 +155,18 @@ def run_one(args):
     with open(sp, "w") as fh:
         fh.write(src)
     planted = None
-    if c["stale"]:
+    extra = []
+    if c.get("how"):
+        # the output path is a symbolic link to the (stale) image of an earlier run
+        planted = b"STALE OUTPUT FROM AN EARLIER RUN\n"
+        tdir = os.path.join(d, cid + ".dir") if c["how"] == "symlink_subdir" else d
+        os.makedirs(tdir, exist_ok=True)
+        target = os.path.join(tdir, cid + ".target")
+        with open(target, "wb") as fh:
+            fh.write(planted)
+        os.symlink(os.path.relpath(target, d), op)
+        extra = [target]
+    elif c["stale"]:
         planted = b"STALE OUTPUT FROM AN EARLIER RUN\n"
         with open(op, "wb") as fh:
             fh.write(planted)
@@ -168,8 +179,8 @@ def run_one(args):
         rc, out = -999, ""
     errs = sum(1 for l in out.splitlines() if DIAG.search(l))
     st = file_state(op, c["type"], planted)
-    for f in (sp, op):
-        if os.path.exists(f):
+    for f in [sp, op] + extra:
+        if os.path.lexists(f):
             os.unlink(f)
     return cid, {"status": rc, "errs": min(errs, 3), "file": st}, out[-600:]
 
@@ -221,7 +232,7 @@ def run(tier, seed):
     chk.add_tlc(mc)
     if not mc.ok:
         raise C.InfraError("MCProc: %s violated\n%s" % (mc.violated, mc.out[-1500:]))
-    g = C.tlc("GenProc", "gen_Proc_%s.cfg" % tier, rd, workers=4, heap="4g", prefixes=("CASE ", "CPUCASES "))
+    g = C.tlc("GenProc", "gen_Proc_%s.cfg" % tier, rd, workers=4, heap="4g", prefixes=("CASE ", "CPUCASES ", "LINKCASES "))
     chk.add_tlc(g)
     cpp = C.parse_payload(g.lines, "CPUCASES ")
     if not cpp or len(cpp[0]) < 60:
@@ -238,6 +249,12 @@ def run(tier, seed):
     os.makedirs(wd)
     jobs = []
     srcs = {}
+    lk = C.parse_payload(g.lines, "LINKCASES ")
+    if not lk or len(lk[0]) < 20:
+        raise C.InfraError("no link cases")
+    linkcases = [dict(x, base=1 + (k % 3), wrap="none", stale=True) for k, x in enumerate(sorted(lk[0], key=lambda y: json.dumps(y, sort_keys=True)))]
+    nlink0 = len(cs)
+    cs = cs + linkcases
     fam = cpu_family(vdir, cpucases, tier, rnd)
     ngen = len(cs)
     cs = cs + [f[0] for f in fam]
@@ -287,7 +304,7 @@ def run(tier, seed):
         c = cs[cid]
         ob, out = results[cid]
         # identified by corruption kind, wrapping and what goes wrong (position/type/base vary)
-        key = "Proc.%s@%s:%s" % (c["kind"], c["wrap"], v["why"].split(":")[0])
+        key = "Proc.%s@%s:%s" % (c["kind"], c["wrap"] if not c.get("how") else c["how"], v["why"].split(":")[0])
         if "cpu" in c:
             key = "Proc.%s.%s+%s:%s" % (c["cpu"], c["kind"], c["term"], v["why"].split(":")[0])
         chk.report(key, "%s (%s)\n%s--- output tail:\n%s" % (v["why"], json.dumps(c), srcs[cid], out[-300:]),
@@ -297,7 +314,7 @@ def run(tier, seed):
         evaluations=len(cs),
         distinct_nontrivial=len({srcs[i] for i, c in enumerate(cs) if c["kind"] != "none"}),
         rule="TLC enumerates base program x corruption kind (33) x position (first/middle/last) x wrapping "
-             "(none, .if 1, .else part, macro body, .repeat, .scope) x output type x stale file planted; "
+             "(none, .if 1, .else part, macro body, .repeat, .scope) x output type x stale file planted (also as a symbolic link to an earlier image); "
              "combinations that can yield a valid program are excluded; per-CPU family: for every CPU of cpu_list[] a program of its own "
              "instructions (tests/comparison) x {unknown mnemonic, nine operands, unknown mnemonic inside .if, .db 300} x position x "
              "{end of file, end, .end}; non-trivial = corrupted; distinct by source",
